@@ -1,5 +1,6 @@
 """C07 — parsing is total: an error or a well-formed tree, and nothing left running."""
 import os
+import re
 import subprocess
 
 import checklib
@@ -17,10 +18,22 @@ def extract(ctx):
                        stderr=subprocess.STDOUT, text=True, timeout=120)
     if p.returncode != 0 or not os.path.exists(GEN):
         raise checklib.CheckError("C07 fact extractor failed: " + p.stdout[-800:])
+    gen = open(GEN).read()
+    facts = dict(re.findall(r'def (closeFact|syncFact|errFact) : String := "(\w+)"', gen))
+    facts["tableUnderstood"] = "yes" if "def tableUnderstood : Bool := true" in gen else "unknown"
+    ctx.coverage["source_facts"] = facts
+    for n in [l[5:] for l in p.stdout.splitlines() if l.startswith("NOTE ")]:
+        ctx.notes.append("source fact not established (no obligation): " + n)
+    # a fact about the channel skeleton that is neither established nor refuted: search harder in this run
+    if facts.get("closeFact") == "unknown" or facts.get("syncFact") == "unknown":
+        checklib.GOENV["C07_AMPLIFY"] = "1"
+        ctx.log("channel skeleton not established from the source -> amplified leak search (more tails, more concurrent callers)")
 
 
 def decode(p):
     f = p.split(" ")
+    if f[0] == "CONC":
+        return {"concurrent_callers": 8, "seed": f[1]}
     try:
         src = bytes.fromhex(f[0]) if f[0] != "-" else b""
         txt = src.decode("utf8", "backslashreplace")
@@ -29,6 +42,28 @@ def decode(p):
         return {"source": txt, "tokens": 0 if f[1] == "-" else len(f[1].split(","))}
     except Exception:
         return p
+
+
+SIX = {"UnexpectedEnd", "LexicalError", "UnknownToken", "ImpossibleNullDenotation", "ImpossibleLeftDenotation", "UnexpectedToken"}
+BEHAVIOUR = {}   # (go line, model line) -> count: differences which do NOT contradict the property
+
+
+def equal(g, m, attrs):
+    """The property constrains: error xor tree, the error one of the six kinds and positioned at a token of the input,
+    the tree well formed, nothing left running. It does not say WHICH error. So an ERR answer of the real code that differs
+    from the model's ERR answer in kind / position only, is one of the six kinds, points at a token of the input (at=tok,
+    decided on the Go side against the real token list) and has the same leak / ParseWithRuntime verdicts is recorded as a
+    BEHAVIOUR CHANGE (note), not a violation. A positioned answer also satisfies the known finding's spec side.
+    Everything else (tree vs error, different trees, BOTH/NEITHER, PANIC/CRASH/HANG, leak, rt=DIFF, at=none/unpos) is compared exactly."""
+    if g == m:
+        return True
+    gf, mf = g.split(" "), m.split(" ")
+    if len(gf) >= 6 and len(mf) >= 6 and gf[0] == "ERR" and mf[0] == "ERR" and gf[1] in SIX and gf[4] == "at=tok" \
+            and gf[5:] == mf[5:]:
+        k = (" ".join(gf[:5]), " ".join(mf[:5]))
+        BEHAVIOUR[k] = BEHAVIOUR.get(k, 0) + 1
+        return True
+    return False
 
 
 def post(ctx, cases, gores, model):
@@ -46,12 +81,28 @@ def post(ctx, cases, gores, model):
                 ex.append(decode(cases[i]))
         else:
             skipped += 1
+    # behaviour changes: only those where the line really differs from the model's own answer
+    changes = {}
+    for i in cases:
+        g = gores.get(i, "")
+        mm = model.get(i, ("", {}))[0]
+        if g != mm and g.startswith("ERR ") and mm.startswith("ERR ") and equal(g, mm, {}):
+            k = (" ".join(g.split(" ")[:5]), " ".join(mm.split(" ")[:5]))
+            changes.setdefault(k, []).append(i)
+    if changes:
+        n = sum(len(v) for v in changes.values())
+        ex = [{"case": decode(cases[v[0]]), "go": k[0], "model": k[1], "cases": len(v)} for k, v in list(changes.items())[:5]]
+        ctx.coverage["behaviour_changes"] = {"cases": n, "classes": len(changes), "examples": ex}
+        ctx.notes.append(f"BEHAVIOUR CHANGE (not a violation): on {n} cases the real parser answers with a different error "
+                         f"(kind / position) than the model, still one of the six kinds at a token of the input; e.g. {ex[0]}")
+        print(f"BEHAVIOUR-CHANGE: property=C07 {n} cases, {len(changes)} classes, e.g. {ex[0]}", flush=True)
     ctx.coverage["lexer_model_equals_real_token_list"] = {"agree": agree, "differ": differ, "not_evaluated": skipped,
                                                           "examples_differ": ex}
 
 
 SPEC = dict(
     extract=extract,
+    equal=equal,
     post=post,
     lean_modules=["Ecal.Props.C07"],
     shards=16,
